@@ -27,14 +27,14 @@ THEOREMS = ['Props.C11.' + t for t in [
     'subdivision_boundary_identity', 'area_additive_over_chain', 'refine_column_conserves_area',
     'decompose_cases_boundary_identity', 'decompose_cases_conserve_area', 'triangulate_conserves_area',
     'decompose_conserves_area', 'split_column_boundary_identity', 'split_column_conserves_area',
-    'refine_layers_piece_sum', 'refine_layers_conserves_thickness']]
+    'refine_layers_piece_sum', 'refine_layers_conserves_thickness', 'triangle_subcolumns_positive']]
 LEVEL_TEXT = ('Partial proof. Proved in Lean 4 (no sorry), over the subdivision tables regenerated from mulgrids.py on every run: the model of '
               'transition_type equals the source function on its whole domain; every non-empty set of refined sides of a 3- or 4-sided column '
               'has a table entry that uses only existing nodes; for every entry and rotation the sub-columns\' directed edges cancel to the '
               'parent boundary with exactly the refined sides split (decide over the whole table), and therefore - for ALL corner coordinates '
               'and ANY centre-node position - the signed areas of the new columns add up to the old column\'s (refine, split_column, the 5 '
               'special cases of decompose_column for every start node, triangulate_column for every number of sides, decompose_column '
-              'whichever branch fires); refine_layers keeps the total thickness of the layer stack for every selection and factor. NOT proved: positivity of each sub-column / point-wise tiling (winding numbers), conformity of the '
+              'whichever branch fires); refine_layers keeps the total thickness of the layer stack for every selection and factor. every sub-column of a refined TRIANGLE is a fixed positive fraction (1/2, 1/4, 3/4) of it for all coordinates. NOT proved: positivity of the sub-columns of quadrilaterals (needs convexity) / point-wise tiling (winding numbers), conformity of the '
               'whole refined mesh, conservation of totals for the whole geometry (sum over all columns / blocks) - these are evaluated in exact arithmetic by the '
               'oracle on every explored history and the whole-geometry model is tied to the code by the C10 correspondence.')
 LEVEL_NOTE = ('Trusted: Lean kernel (+propext, Classical.choice, Quot.sound); the translator harness/translate/refine_tables.py (tables are '
@@ -207,7 +207,7 @@ def sequence_for(mg, recipe, rng):
             lays = [l.name for l in g.layerlist[1:]]
             op = ['refine_layers', {'layers': rng.sample(lays, rng.randint(1, len(lays))) if rng.random() < 0.8 else [],
                                     'factor': rng.choice([2, 3, 4])}]
-        elif r < 0.32:
+        elif r < 0.32 and G.roundtrip_safe(g):
             op = ['roundtrip']
         elif r < 0.37:
             op = rng.choice([['rotate', {'angle': H(rng.choice([90., 30., 37.6, -45.]))}],
